@@ -942,7 +942,7 @@ PRIME_HOWS = [('parse', 'lines'), ('setitem', 'recs'), ('setitem', 'string'), ('
 PRIME_FORMS = ['str', 'lines-bare', 'stringio', 'bytes', 'bytesio', 'lines-nl', 'lines-gen']
 SUB_ROUTES = ['setitem', 'setitem', 'update', 'ctor', 'setitem', 'setdefault', 'copy']
 SUB_BUILDS = ['assign', 'parse', 'assign', 'dict', 'parse-stream']
-SUB_RANDOM_TOTAL = {'quick': 1400, 'thorough': 120000}
+SUB_RANDOM_TOTAL = {'quick': 1400, 'thorough': 80000}
 SUBLOG_KEEP = 400
 PRELUDE_STEPS = 60
 
